@@ -22,7 +22,7 @@ for p in props:
         out.append("  * assumes: %s" % a)
     out.append("")
 kf = json.load(open(os.path.join(V, "known_findings.json")))["findings"]
-out.append("### 11.1 Findings file (known_findings.json)\n")
+out.append("### 10.3b Findings file (known_findings.json) — see §11 for the narrative\n")
 out.append("| property | key | status | what fails |\n|---|---|---|---|")
 for f in kf:
     out.append("| %s | %s | %s | %s |" % (f["property"], f["key"], f["status"], (f.get("short") or f.get("record") or f.get("text", "")).replace("|", "/")[:400]))
